@@ -62,7 +62,7 @@ def pytype(x):
     if type(x) is SymBytesIO:
         return io.BytesIO
     n = type(x).__name__
-    if n == 'SymStr':
+    if n == 'SymStr' or n == 'LazyStr':
         return str
     if n == 'SymFloat':
         return float
